@@ -3,6 +3,7 @@ use crate::proto::*;
 use crate::rng::Rng;
 use pricelevel::{OrderId, OrderType, PegReferenceType, PriceLevel, Side, TimeInForce, UuidGenerator};
 use uuid::Uuid;
+use std::sync::Arc;
 
 pub const U64MAX: u64 = u64::MAX;
 
@@ -304,6 +305,15 @@ pub fn gen_seq(seed: u64, ncases: u64, maxlen: u64, zero_ok: bool, rebuilds: boo
                 forked = true;
             }
         }
+        // sparse observation (one case in five): the harness reads nothing between the calls - no listing, no
+        // statistics - except where the history itself contains a read or a `state`; a cache that outlives its
+        // validity, or a read that changes later results, needs exactly that to show
+        let quiet = !rebuilds && r.chance(1, 5);
+        if quiet {
+            out.push("quiet on".to_string());
+        }
+        // (visible delta of the last amendment, if nothing but amendments happened since)
+        let mut pending_delta: Option<(OrderId, i128)> = None;
         for _ in 0..len {
             let live: Vec<OrderId> = lvl.iter_orders().iter().map(|o| o.id()).collect();
             if rebuilds && r.chance(1, 12) {
@@ -324,7 +334,35 @@ pub fn gen_seq(seed: u64, ncases: u64, maxlen: u64, zero_ok: bool, rebuilds: boo
             if r.chance(1, 8) {
                 out.push(format!("read {}", r.pick(&["snapshot", "package", "json", "display", "serde", "stats", "list", "agg"])));
             }
+            if quiet && r.chance(1, 6) {
+                // a read, two amendments that move the same quantity from one order to another (every aggregate and
+                // every statistic ends where it started), a read
+                let am: Vec<(OrderId, u64)> = lvl.iter_orders().iter()
+                    .filter(|o| matches!(***o, OrderType::Standard { .. } | OrderType::PostOnly { .. } | OrderType::IcebergOrder { .. }))
+                    .map(|o| (o.id(), o.visible_quantity())).collect();
+                if am.len() >= 2 {
+                    let i = r.below(am.len() as u64) as usize;
+                    let mut j = r.below(am.len() as u64 - 1) as usize;
+                    if j >= i { j += 1; }
+                    let lo = if zero_ok { 0 } else { 1 };
+                    if am[j].1 > lo {
+                        let d = r.range(1, (am[j].1 - lo).min(6));
+                        if (total + d as u128) * (price.max(1 << 20) as u128) < (1u128 << 63) {
+                            total += d as u128;
+                            out.push("state".to_string());
+                            for (id, n) in [(am[i].0, am[i].1 + d), (am[j].0, am[j].1 - d)] {
+                                out.push(format!("upd qty {} {}", show_id(&id), n));
+                                let _ = lvl.update_order(pricelevel::OrderUpdate::UpdateQuantity { order_id: id, new_quantity: n });
+                            }
+                            out.push("state".to_string());
+                            pending_delta = None;
+                            continue;
+                        }
+                    }
+                }
+            }
             let choice = r.below(100);
+            if choice < 68 { pending_delta = None; }
             if choice < 38 || live.is_empty() && choice < 70 {
                 // add with an id that is not live
                 // pool ids 0..npool: 0 is the nil id
@@ -366,7 +404,26 @@ pub fn gen_seq(seed: u64, ncases: u64, maxlen: u64, zero_ok: bool, rebuilds: boo
                 let n = match r.below(6) { 0 => if zero_ok { 0 } else { 1 }, 1 => cur, 2 => cur + r.range(1, 9), 3 => cur.saturating_sub(r.range(1, 4)).max(if zero_ok {0} else {1}), _ => r.range(1, 20) };
                 if (total + n as u128) * (price as u128) >= (1u128 << 63) { continue; }
                 total += n as u128;
-                let (line, upd) = match r.below(10) {
+                // compensating amendments (sparse cases): the second of two quantity amendments takes away from
+                // one order exactly what the first gave to another, so that every aggregate is back where it was
+                let mut n = n;
+                let mut kind = r.below(10);
+                let amendable = |o: &Arc<Order>| matches!(**o, OrderType::Standard { .. } | OrderType::PostOnly { .. } | OrderType::IcebergOrder { .. });
+                let is_amendable = lvl.iter_orders().iter().any(|o| o.id() == id && amendable(o));
+                if quiet {
+                    if let Some((pid, d)) = pending_delta {
+                        let want = cur as i128 - d;
+                        if pid != id && is_amendable && want >= (if zero_ok { 0 } else { 1 }) && want < (1 << 40) && r.chance(2, 3) {
+                            n = want as u64;
+                            kind = 3;
+                        }
+                    }
+                }
+                pending_delta = if kind >= 3 && kind <= 5 && is_amendable {
+                    let d0 = pending_delta.filter(|(pid, _)| *pid != id).map(|(_, d)| d).unwrap_or(0);
+                    Some((id, d0 + n as i128 - cur as i128)).filter(|(_, d)| *d != 0)
+                } else { None };
+                let (line, upd) = match kind {
                     0 | 1 | 2 => (format!("upd cancel {ids}"), pricelevel::OrderUpdate::Cancel { order_id: id }),
                     3 | 4 | 5 => (format!("upd qty {ids} {n}"), pricelevel::OrderUpdate::UpdateQuantity { order_id: id, new_quantity: n }),
                     6 => (format!("upd price {ids} {p}"), pricelevel::OrderUpdate::UpdatePrice { order_id: id, new_price: p }),
@@ -379,7 +436,13 @@ pub fn gen_seq(seed: u64, ncases: u64, maxlen: u64, zero_ok: bool, rebuilds: boo
                 out.push(line);
                 let _ = lvl.update_order(upd);
             }
+            if !quiet || r.chance(1, 4) {
+                out.push("state".to_string());
+            }
+        }
+        if quiet {
             out.push("state".to_string());
+            out.push("quiet off".to_string());
         }
         // final draining matches reveal the queue order
         for _ in 0..3 {
@@ -710,7 +773,8 @@ pub fn gen_conc(seed: u64, ncases: u64, scheds_per_prog: u64, out: &Sink) {
                     sched.push(t.to_string());
                 }
             }
-            out.push(format!("conc.run {}", sched.join(",")));
+            // half of the executions run worker 0 on the thread that built the level and the generator
+            out.push(format!("conc.run {}{}", sched.join(","), if r.chance(1, 2) { " h" } else { "" }));
             out.push("state".to_string());
             out.push(format!("match {} {}", 1u64 << 40, show_id(&pool_id(999))));
             out.push("state".to_string());
@@ -718,44 +782,81 @@ pub fn gen_conc(seed: u64, ncases: u64, scheds_per_prog: u64, out: &Sink) {
     }
 }
 
-/// Systematic small-scope schedules (search mode / thorough): tiny two-thread programs on a level with
-/// 0-2 pre-loaded orders, every schedule with at most two context switches (thread 0 runs k steps,
-/// thread 1 runs m steps, thread 0 finishes, thread 1 finishes), k in 0..=8, m in 0..=16.
-pub fn gen_concx(seed: u64, nprogs: u64, out: &Sink) {
-    let mut r0 = Rng::new(seed ^ 0x434f_4e58);
-    let mut case = 0u64;
-    for _ in 0..nprogs {
-        let mut r = r0.fork();
-        let price = 100u64;
-        let npre = r.below(3);
-        let mut pre: Vec<Order> = Vec::new();
-        for i in 0..npre {
-            let kind = *r.pick(&[0u8, 5, 6]);
-            let o = mk_order(kind, pool_id(1 + i), price, r.range(1, 9), if kind >= 5 { r.below(10) } else { 0 }, r.below(3),
-                             if r.chance(1, 2) { None } else { Some(r.range(0, 5)) }, r.chance(2, 3), Side::Sell, r.range(1, 9), TimeInForce::Gtc);
-            pre.push(o);
+/// Systematic small-scope schedules. The PROGRAMS are enumerated, not drawn: a level holding one target order X
+/// (six shapes: Standard; Iceberg with hidden >= display, with hidden < display, with display 0; auto-replenishing
+/// Reserve whose tranche equals its display; manual Reserve), alone or with a Standard order behind it; thread 0
+/// issues one of seven calls (add Standard / add Iceberg / amend X up, to the same value, down, to 0 / cancel X),
+/// thread 1 one of six (match 1, match exactly X's display, match 100, cancel X, amend X, list) - 504 programs.
+/// Each runs under every schedule with at most two context switches from a grid: thread 0 runs k steps, thread 1 runs
+/// m steps, thread 0 finishes, thread 1 finishes. quick / search: `nprogs` programs drawn without replacement, k in
+/// 0..=7, m in {1..6, 8, 10, 12, 14, 16, 40}; thorough: the shard's slice of all programs, k in 0..=8, m in 0..=16 and 40.
+pub fn gen_concx(seed: u64, nprogs: u64, thorough: bool, out: &Sink) {
+    let price = 100u64;
+    let x = pool_id(1);
+    let y = pool_id(2);
+    let g = TimeInForce::Gtc;
+    let xs: Vec<Order> = vec![
+        mk_order(0, x, price, 5, 0, 0, None, false, Side::Sell, 1, g),
+        mk_order(5, x, price, 4, 9, 0, None, false, Side::Sell, 1, g),
+        mk_order(5, x, price, 4, 2, 0, None, false, Side::Sell, 1, g),
+        mk_order(5, x, price, 0, 3, 0, None, false, Side::Sell, 1, g),
+        mk_order(6, x, price, 3, 6, 1, Some(3), true, Side::Sell, 1, g),
+        mk_order(6, x, price, 3, 6, 2, None, false, Side::Sell, 1, g),
+    ];
+    let yo = mk_order(0, y, price, 5, 0, 0, None, false, Side::Sell, 2, g);
+    let xi = show_id(&x);
+    let mut programs: Vec<(usize, bool, String, String)> = Vec::new();
+    for (ix, xo) in xs.iter().enumerate() {
+        let v = xo.visible_quantity();
+        for with_y in [false, true] {
+            let op0s = vec![
+                format!("add~{}", show_order(&mk_order(0, pool_id(50), price, 4, 0, 0, None, false, Side::Sell, 3, g))),
+                format!("add~{}", show_order(&mk_order(5, pool_id(50), price, 2, 3, 0, None, false, Side::Sell, 0, g))),
+                format!("amend~{}~{}", xi, v + 3),
+                format!("amend~{}~{}", xi, v),
+                format!("amend~{}~1", xi),
+                format!("amend~{}~0", xi),
+                format!("cancel~{}", xi),
+            ];
+            let op1s = vec![
+                format!("match~1~{}", show_id(&pool_id(900))),
+                format!("match~{}~{}", v.max(1), show_id(&pool_id(900))),
+                format!("match~100~{}", show_id(&pool_id(900))),
+                format!("cancel~{}", xi),
+                format!("amend~{}~7", xi),
+                "read~list".to_string(),
+            ];
+            for a in &op0s { for b in &op1s { programs.push((ix, with_y, a.clone(), b.clone())); } }
         }
-        let target = pool_id(1 + r.below(npre.max(1)));
-        let kind = *r.pick(&[0u8, 5, 6]);
-        let fresh = mk_order(kind, pool_id(50), price, r.range(1, 9), if kind >= 5 { r.below(10) } else { 0 }, r.below(3),
-                             None, true, Side::Sell, r.range(1, 9), TimeInForce::Gtc);
-        let op0 = match r.below(4) {
-            0 | 1 => format!("add~{}", show_order(&fresh)),
-            2 => format!("amend~{}~{}", show_id(&target), r.range(0, 12)),
-            _ => format!("cancel~{}", show_id(&target)),
-        };
-        let op1 = match r.below(5) {
-            0 | 1 | 2 => format!("match~{}~{}", r.range(1, 40), show_id(&pool_id(900))),
-            3 => format!("cancel~{}", show_id(&target)),
-            _ => format!("amend~{}~{}", show_id(&target), r.range(0, 12)),
-        };
-        for k in 0..=8u64 {
-            for m in 0..=16u64 {
-                out.push(format!("case {case}"));
+    }
+    let total = programs.len() as u64;
+    let chosen: Vec<usize> = if thorough {
+        let shard = seed % 1000 % 14;
+        (0..total).filter(|p| p % 14 == shard).map(|p| p as usize).collect()
+    } else {
+        // a seeded sample without replacement
+        let mut r = Rng::new(seed ^ 0x434f_4e58);
+        let mut idx: Vec<usize> = (0..total as usize).collect();
+        let mut pick = Vec::new();
+        for _ in 0..nprogs.min(total) {
+            let j = r.below(idx.len() as u64) as usize;
+            pick.push(idx.swap_remove(j));
+        }
+        pick
+    };
+    let ks: Vec<u64> = if thorough { (0..=8).collect() } else { (0..=7).collect() };
+    let ms: Vec<u64> = if thorough { (0..=16).chain([40]).collect() } else { vec![1, 2, 3, 4, 5, 6, 8, 10, 12, 14, 16, 40] };
+    let mut case = 0u64;
+    for p in chosen {
+        let (ix, with_y, op0, op1) = &programs[p];
+        for &k in &ks {
+            for &m in &ms {
+                out.push(format!("case p{p}-{case}"));
                 case += 1;
                 out.push(format!("new {price}"));
-                for o in &pre {
-                    out.push(format!("add {}", show_order(o)));
+                out.push(format!("add {}", show_order(&xs[*ix])));
+                if *with_y {
+                    out.push(format!("add {}", show_order(&yo)));
                 }
                 out.push(format!("conc.thread 0 {op0}"));
                 out.push(format!("conc.thread 1 {op1}"));
@@ -763,8 +864,8 @@ pub fn gen_concx(seed: u64, nprogs: u64, out: &Sink) {
                 for _ in 0..k { sched.push("0"); }
                 for _ in 0..m { sched.push("1"); }
                 for _ in 0..30 { sched.push("0"); }
-                for _ in 0..40 { sched.push("1"); }
-                out.push(format!("conc.run {}", sched.join(",")));
+                for _ in 0..60 { sched.push("1"); }
+                out.push(format!("conc.run {}{}", sched.join(","), if (k + m) % 2 == 0 { " h" } else { "" }));
                 out.push("state".to_string());
                 out.push(format!("match {} {}", 1u64 << 40, show_id(&pool_id(999))));
                 out.push("state".to_string());
